@@ -12,27 +12,39 @@ Section MutInd.
   Hypothesis Hu : forall z, P (MUmask z).
   Hypothesis Hl : forall z, P (MUlimit z).
   Hypothesis Hx : forall n, P (MExit n).
+  Hypothesis Hr : forall n, P (MReturn n).
+  Hypothesis Hc : forall body, Forall P body -> P (MCall body).
   Hypothesis Hs : forall c body, Forall P body -> P (MSub c body).
   Fixpoint mut_ind' (m : mut) : P m :=
+    let go := fix go (l : list mut) : Forall P l :=
+                match l with
+                | [] => Forall_nil _
+                | x :: r => Forall_cons _ (mut_ind' x) (go r)
+                end in
     match m with
     | MField f v => Hf f v
     | MUmask z => Hu z
     | MUlimit z => Hl z
     | MExit n => Hx n
-    | MSub c body => Hs c body ((fix go (l : list mut) : Forall P l :=
-                                   match l with
-                                   | [] => Forall_nil _
-                                   | x :: r => Forall_cons _ (mut_ind' x) (go r)
-                                   end) body)
+    | MReturn n => Hr n
+    | MCall body => Hc body (go body)
+    | MSub c body => Hs c body (go body)
     end.
 End MutInd.
 
-Lemma run_sub_eq c body w :
-  run_mut (MSub c body) w =
-  let '(w', fl') := run_list body (clone_shell (fst w), snd w) in
-  ((cset status_field [lit "?"] (merge_back shell_clone_table (fst w) (fst w')), snd w'),
-   match c, fl' with _, _ => Go end).
-Proof. reflexivity. Qed.
+Lemma run_sub_eq o c body w :
+  is_subshell o c = true ->
+  run_mut o (MSub c body) w =
+  let '(w', _) := run_list o body (clone_shell (fst w), snd w) in
+  ((cset status_field [lit "?"] (merge_back shell_clone_table (fst w) (fst w')), snd w'), Go).
+Proof. intros H. cbn [run_mut]. rewrite H. reflexivity. Qed.
+
+(** the last stage under `lastpipe` (no job control) is a brace group in the current shell *)
+Lemma run_lastpipe_eq o c body w :
+  is_subshell o c = false ->
+  run_mut o (MSub c body) w =
+  let '(w', fl) := run_list o body w in ((cset status_field [lit "?"] (fst w'), snd w'), fl).
+Proof. intros H. cbn [run_mut]. rewrite H. reflexivity. Qed.
 
 (** ** finite-map facts *)
 Lemma cget_cset_same f v s : cget f (cset f v s) = v.
@@ -83,12 +95,12 @@ Lemma observed_fields_cloned :
 Proof. vm_compute. reflexivity. Qed.
 
 (** ** the subshell theorem *)
-Theorem subshell_preserves_cloned : forall c body w f,
-  ~ In f known_shared -> flows_back f = false ->
-  cget f (fst (fst (run_mut (MSub c body) w))) = cget f (fst w).
+Theorem subshell_preserves_cloned : forall o c body w f,
+  is_subshell o c = true -> ~ In f known_shared -> flows_back f = false ->
+  cget f (fst (fst (run_mut o (MSub c body) w))) = cget f (fst w).
 Proof.
-  intros c body w f Hk Hs. rewrite run_sub_eq.
-  destruct (run_list body (clone_shell (fst w), snd w)) as [w' fl]. cbn [fst].
+  intros o c body w f Hsub Hk Hs. rewrite run_sub_eq by exact Hsub.
+  destruct (run_list o body (clone_shell (fst w), snd w)) as [w' fl]. cbn [fst].
   rewrite cget_cset_other.
   - apply merge_back_other. rewrite shared_fields_known. exact Hk.
   - unfold flows_back in Hs. intros ->. rewrite String.eqb_refl in Hs. discriminate.
@@ -111,68 +123,119 @@ Proof.
 Qed.
 
 (** ** process-global state *)
-Lemma run_pg : forall m w, touches_pg m = false -> snd (fst (run_mut m w)) = snd w.
+Lemma run_seq_pg o : forall l w0,
+  Forall (fun m => forall w, touches_pg m = false -> snd (fst (run_mut o m w)) = snd w) l ->
+  existsb touches_pg l = false -> snd (fst (run_list o l w0)) = snd w0.
+Proof.
+  induction l as [|m l IH]; intros w0 HF HT; [reflexivity|].
+  inversion HF as [|? ? Hm Hr]; subst. cbn [existsb] in HT. apply orb_false_iff in HT. destruct HT as [T1 T2].
+  unfold run_list in *. cbn [run_seq]. specialize (Hm w0 T1). destruct (run_mut o m w0) as [w1 fl]. cbn [fst] in Hm.
+  destruct fl; try exact Hm. rewrite (IH w1 Hr T2). exact Hm.
+Qed.
+
+Lemma run_pg o : forall m w, touches_pg m = false -> snd (fst (run_mut o m w)) = snd w.
 Proof.
   intros m. induction m using mut_ind'; intros w T; try discriminate; try reflexivity.
-  rewrite run_sub_eq. cbn [touches_pg] in T.
-  assert (Hl : forall l w0, Forall (fun m => forall w, touches_pg m = false -> snd (fst (run_mut m w)) = snd w) l ->
-               (fix any (l : list mut) : bool := match l with [] => false | x :: r => touches_pg x || any r end) l = false ->
-               snd (fst (run_list l w0)) = snd w0).
-  { clear. induction l as [|m l IH]; intros w0 HF HT; [reflexivity|].
-    inversion HF as [|? ? Hm Hr]; subst. apply orb_false_iff in HT. destruct HT as [T1 T2].
-    cbn [run_list]. specialize (Hm w0 T1). destruct (run_mut m w0) as [w1 fl]. cbn [fst] in Hm.
-    destruct fl; [|exact Hm]. rewrite (IH w1 Hr T2). exact Hm. }
-  specialize (Hl body (clone_shell (fst w), snd w) H T).
-  destruct (run_list body _) as [w' fl]. cbn [fst snd] in *. exact Hl.
+  - cbn [touches_pg] in T. pose proof (run_seq_pg o body w H T) as Hl.
+    cbn [run_mut]. fold (run_list o body w). destruct (run_list o body w) as [w' fl]. exact Hl.
+  - cbn [touches_pg] in T. destruct (is_subshell o c) eqn:E.
+    + rewrite run_sub_eq by exact E.
+      pose proof (run_seq_pg o body (clone_shell (fst w), snd w) H T) as Hl.
+      destruct (run_list o body _) as [w' fl]. exact Hl.
+    + rewrite run_lastpipe_eq by exact E.
+      pose proof (run_seq_pg o body w H T) as Hl.
+      destruct (run_list o body w) as [w' fl]. exact Hl.
 Qed.
 
 (** mutator classification: a mutator changes process-global state only if it is (or contains)
     `umask` or `ulimit`; those two do change it *)
 Theorem mutator_classification :
-  (forall m w, touches_pg m = false -> snd (fst (run_mut m w)) = snd w) /\
-  (forall z w, pg_umask (snd (fst (run_mut (MUmask z) w))) = z) /\
-  (forall z w, pg_nofile (snd (fst (run_mut (MUlimit z) w))) = z) /\
-  (forall f v w, snd (fst (run_mut (MField f v) w)) = snd w).
+  (forall o m w, touches_pg m = false -> snd (fst (run_mut o m w)) = snd w) /\
+  (forall o z w, pg_umask (snd (fst (run_mut o (MUmask z) w))) = z) /\
+  (forall o z w, pg_nofile (snd (fst (run_mut o (MUlimit z) w))) = z) /\
+  (forall o f v w, snd (fst (run_mut o (MField f v) w)) = snd w).
 Proof. split; [exact run_pg|]. repeat split. Qed.
 
 (** everything the parent can observe is as before, unless the body touches process-global
     state or a known shared field *)
-Theorem isolation_outside_known : forall c body w,
-  touches_pg (MSub c body) = false ->
-  snd (fst (run_mut (MSub c body) w)) = snd w /\
+Theorem isolation_outside_known : forall o c body w,
+  is_subshell o c = true -> touches_pg (MSub c body) = false ->
+  snd (fst (run_mut o (MSub c body) w)) = snd w /\
   forall f, ~ In f known_shared -> flows_back f = false ->
-            cget f (fst (fst (run_mut (MSub c body) w))) = cget f (fst w).
+            cget f (fst (fst (run_mut o (MSub c body) w))) = cget f (fst w).
 Proof.
-  intros c body w T. split; [apply run_pg; exact T|].
+  intros o c body w Hsub T. split; [apply run_pg; exact T|].
   intros f Hk Hs. apply subshell_preserves_cloned; assumption.
 Qed.
 
+Definition o_none : popts := mkOpts false false false.
+
 (** the full statement is false on the code as it is: `(umask 077); umask` *)
 Theorem isolation_refuted :
-  exists c body w, snd (fst (run_mut (MSub c body) w)) <> snd w.
+  exists o c body w, is_subshell o c = true /\ snd (fst (run_mut o (MSub c body) w)) <> snd w.
 Proof.
-  exists CParen, [MUmask 63], (init_state, mkPg 18 1024 []). vm_compute. discriminate.
+  exists o_none, CParen, [MUmask 63], (init_state, mkPg 18 1024 []). split; [reflexivity|]. vm_compute. discriminate.
 Qed.
 
 Theorem isolation_ulimit_refuted :
-  exists c body w, pg_nofile (snd (fst (run_mut (MSub c body) w))) <> pg_nofile (snd w).
+  exists o c body w, is_subshell o c = true /\
+    pg_nofile (snd (fst (run_mut o (MSub c body) w))) <> pg_nofile (snd w).
 Proof.
-  exists CCmdSubst, [MUlimit 64], (init_state, mkPg 18 1024 []). vm_compute. discriminate.
+  exists o_none, CCmdSubst, [MUlimit 64], (init_state, mkPg 18 1024 []). split; [reflexivity|]. vm_compute. discriminate.
 Qed.
 
-(** `exit` inside a subshell ends the subshell only *)
-Theorem exit_contained : forall c body w, snd (run_mut (MSub c body) w) = Go.
-Proof. intros c body w. rewrite run_sub_eq. destruct (run_list body _) as [w' fl]. reflexivity. Qed.
+(** `exit`, `return` (any control flow) inside a subshell end the subshell only *)
+Theorem exit_contained : forall o c body w, is_subshell o c = true -> snd (run_mut o (MSub c body) w) = Go.
+Proof.
+  intros o c body w H. rewrite run_sub_eq by exact H. destruct (run_list o body _) as [w' fl]. reflexivity.
+Qed.
+
+(** a function call absorbs `return`; it never hands `Returned` to its caller *)
+Theorem call_absorbs_return : forall o body w, snd (run_mut o (MCall body) w) <> Returned.
+Proof.
+  intros o body w. cbn [run_mut]. destruct (run_seq (run_mut o) body w) as [w' fl]. destruct fl; discriminate.
+Qed.
+
+(** which pipeline stages are subshells, as a function of the options (mirrors interp.rs):
+    a non-final stage always; every context other than the last stage always; the last stage
+    unless `lastpipe` is on and job control is off; with job control everything *)
+Theorem stage_classification :
+  (forall o, is_subshell o CPipeFirst = true) /\
+  (forall o c, c <> CPipeLast -> is_subshell o c = true) /\
+  (forall o c, o_jobctl o = true -> is_subshell o c = true) /\
+  (forall o c, o_lastpipe o = false -> is_subshell o c = true) /\
+  (forall o, is_subshell o CPipeLast = false <-> (o_lastpipe o = true /\ o_jobctl o = false)).
+Proof.
+  repeat split.
+  - intros o c H. destruct c; try reflexivity. contradiction.
+  - intros o c H. destruct c; try reflexivity. unfold is_subshell, runs_last_stage_in_current. rewrite H.
+    rewrite andb_false_r. reflexivity.
+  - intros o c H. destruct c; try reflexivity. unfold is_subshell, runs_last_stage_in_current. rewrite H. reflexivity.
+  - unfold is_subshell, runs_last_stage_in_current in H. destruct (o_lastpipe o); [reflexivity | discriminate].
+  - unfold is_subshell, runs_last_stage_in_current in H. destruct (o_lastpipe o), (o_jobctl o); try discriminate; reflexivity.
+  - intros [H1 H2]. unfold is_subshell, runs_last_stage_in_current. rewrite H1, H2. reflexivity.
+Qed.
+
+(** under `lastpipe` without job control the last stage is *not* isolated: it is the body run
+    as a brace group in the current shell (so its effects and its exit/return are the parent's) *)
+Theorem lastpipe_last_stage_is_current : forall o body w,
+  o_lastpipe o = true -> o_jobctl o = false ->
+  run_mut o (MSub CPipeLast body) w =
+  let '(w', fl) := run_list o body w in ((cset status_field [lit "?"] (fst w'), snd w'), fl).
+Proof.
+  intros o body w H1 H2. apply run_lastpipe_eq. unfold is_subshell, runs_last_stage_in_current. rewrite H1, H2. reflexivity.
+Qed.
 
 (** a field that a subshell can write through (the shape of KF-C12-keybindings) *)
 Theorem shared_field_leaks :
   exists f v, In f known_shared /\
-    cget f (fst (fst (run_mut (MSub CParen [MField f v]) (init_state, mkPg 18 1024 [])))) = v /\
+    cget f (fst (fst (run_mut o_none (MSub CParen [MField f v]) (init_state, mkPg 18 1024 [])))) = v /\
     v <> cget f init_state.
 Proof. exists "key_bindings"%string, [lit "rebound"]. vm_compute. repeat split; try tauto. discriminate. Qed.
 
 (** non-vacuity *)
 Lemma ex_nonvacuous :
-  touches_pg (MSub CPipeFirst [MField "env"%string [lit "x"]; MSub CParen [MExit 3]; MField "traps"%string []]) = false /\
+  touches_pg (MSub CPipeFirst [MField "env"%string [lit "x"]; MSub CParen [MExit 3]; MCall [MReturn 2]; MField "traps"%string []]) = false /\
+  is_subshell (mkOpts true true true) CPipeLast = true /\ is_subshell (mkOpts true false true) CPipeLast = false /\
   ~ In "env"%string known_shared /\ flows_back "env"%string = false /\ In "env"%string observed.
 Proof. repeat split; try reflexivity; cbn; intuition discriminate. Qed.
